@@ -315,7 +315,7 @@ class Ctx:
             for m in re.finditer(r'^Loop (\S+):', out0, re.M):
                 if re.search(harness_loop_rx, m.group(1)):
                     us[m.group(1)] = harness_unwind
-        us.update({'vp_memset.0': 130, 'vp_memcpy.0': 130, 'vp_memmove.0': 130, 'vp_memmove.1': 130, 'vp_dup.0': 66,
+        us.update({'vp_memset.0': 600, 'vp_memcpy.0': 130, 'vp_memmove.0': 130, 'vp_memmove.1': 130, 'vp_dup.0': 66,
               'vp_strlen.0': 66, 'vp_libc_memcmp.0': 66, 'vp_libc_memchr.0': 66,
                    'vp_obj_rank.0': 30, 'vp_mul64x64.0': 12, 'vp_divrem64.0': 12})
         us.update(unwindset or {})
